@@ -554,6 +554,62 @@ def glob_scenarios(tier, first_sid, rnd):
     return out
 
 
+PRODUCT_GLOBS = {
+    "plain": [None, None, "**", "*", "a/**", "**/*.txt", "a/b/*", "{a,b}/**", "**/{b,.h}/**", "a*/**", "?/b/*", "*/*", "**/b/*", "<*/>*.txt", "a/<b/:0,1>*"],
+    "deep": [None, None, "**", "a/**/{f,g,h}", "**/c/*", "a/b/**", "**/g", "{a,b}/c/*", "**/b/**", "a/*/g", "*/c/**", "b/**/h", "<*/:1,2>g"],
+    "links": [None, None, "**", "a/f*", "*/g", "b/*", "**/g", "a/*", "?/t*", "a/tob/**", "**/up/**"],
+}
+PRODUCT_NEGS = {
+    "plain": ["**/b/**", "b/**", "**/*.txt", "a/b", "**/{b}", "{a/**,**/y.txt}", "{**/b/**,**/b}", "{a/**,a}", "a/**", "**/a/*", "?/**", "<*/>", "**/d", ".h"],
+    "deep": ["**/b/**", "b/**", "**/c/**", "**/{f,g}", "{**/c,**/c/**,**/g}", "a/b/**", "**/b", "{a/**,a}", "a/**", "**/a/*", "?/**", "<*/>", "**/g"],
+    "links": ["**/tob/**", "a/**", "**/g", "b/**", "{a/up,a/up/**}", "**/up/**", "*/f", "dangling", "**/b/**", "lf"],
+}
+PRODUCT_DEPTHS = [(-1, -1, None), (-1, -1, None), (1, -1, "from_min"), (-1, 2, "from_max"), (1, 2, "from_depths"), (2, 3, "from_depths"), (1, 3, "bounded"),
+                  (2, -1, "bounded"), (-1, 1, "bounded"), (2, 2, "from_depths")]
+
+
+def product_scenarios(rnd, count, first_sid, trees=("plain", "deep", "links")):
+    """a seeded sample of the PRODUCT of the dimensions that the hand-written libraries vary one or two at a time:
+    tree x (path walk | glob) x link behaviour x depth behaviour (through the public constructors) x a stack of one
+    to three layers, each an entry filter with a random verdict table (tree / file discards on random entries) or a
+    negation (text or compiled).  Every trace is validated against Walk.tla with all its invariants."""
+    out = []
+    for k in range(count):
+        tname = trees[k % len(trees)]
+        nodes, index = tree(TREES[tname])
+        h0 = {"nodes": nodes, "walk_from": index["root"]}
+        paths = sorted(node_paths(dict(h0, follow=False)))
+        g = rnd.choice(PRODUCT_GLOBS[tname])
+        follow = tname == "links" and rnd.random() < 0.6
+        if g is not None and follow and not g.startswith("*"):
+            follow = rnd.random() < 0.5
+        if g is not None and g.startswith("a/tob"):
+            follow = True      # a prefix that ends at a link: the walk starts at the link (clause U7)
+        mn, mx, ctor = rnd.choice(PRODUCT_DEPTHS)
+        layers = []
+        for _ in range(rnd.choice((1, 1, 2, 2, 3))):
+            if rnd.random() < 0.5:
+                table = {}
+                for q in rnd.sample(paths, min(len(paths), rnd.choice((1, 2, 3)))):
+                    if q != "root":
+                        table[q] = rnd.choice(("tree", "tree", "file"))
+                layers.append({"kind": "filter", "verdicts": table})
+            else:
+                layers.append({"kind": "not", "patterns": [C.cps(rnd.choice(PRODUCT_NEGS[tname]))], "mode": rnd.choice(("text", "compiled"))})
+        h = {"sid": first_sid + len(out), "nodes": nodes, "follow": follow, "min": mn, "max": mx, "rooted": False, "walk_from": index["root"],
+             "base": rnd.choice(("abs", "abs", "trailing")), "tree": tname, "origin": "product", "layers": layers,
+             "desc": "product: %s over tree %s (links read as %s), depth %s..%s%s, layers %s" % (
+                 "path walk" if g is None else "glob %r" % g, tname, "targets" if follow else "files", mn if mn > 0 else 0, mx if mx >= 0 else "inf",
+                 " (%s)" % ctor if ctor else "",
+                 [("filter %s" % l["verdicts"]) if l["kind"] == "filter" else "not(%r as %s)" % (C.text(l["patterns"][0]), l["mode"]) for l in layers])}
+        if ctor:
+            h["ctor"] = ctor
+        if g is not None:
+            h["glob"] = C.cps(g)
+        out.append(h)
+    return out
+
+
 def family_walk_scenarios(tier, first_sid, rnd, texts):
     """glob walks over the tree ab3 for (a seeded sample of) the built members of expression families: the yielded
     set of each is compared with the real is_match on every path of the tree (no trace validation)"""
